@@ -102,9 +102,13 @@ type Step struct {
 type Case struct {
 	Index   int      `json:"case_index"`
 	Kind    string   `json:"kind"`
-	Dir     string   `json:"invocation_dir"`            // "" = repository root
-	Multi   string   `json:"multi_arg_shape,omitempty"` // multi-arg cases: "<op>:<roles in command-line order>", roles K known (tracked, requested lockable state), O tracked with the other lockable state, N new
-	Cwd     string   `json:"cwd_reached_via"`           // cwdPhysical | cwdRepoParent | cwdRepo | cwdSubParent
+	Dir     string   `json:"invocation_dir"`                     // "" = repository root
+	Multi   string   `json:"multi_arg_shape,omitempty"`          // multi-arg cases: "<op>:<roles in command-line order>", roles K known (tracked, requested lockable state), O tracked with the other lockable state, N new
+	Addr    string   `json:"repository_addressed_via,omitempty"` // "" = cwd inside the work tree (discovery) | addrEnv | addrGitOpts | addrCoreWT
+	Start   string   `json:"process_cwd,omitempty"`              // addressing cases: startRoot | startSub | startUnrelated | startLookalike | startParent
+	Look    string   `json:"lookalike_suffix,omitempty"`         // startLookalike: the directory is <work tree path><suffix>
+	OutPre  bool     `json:"outside_gitattributes_preexists,omitempty"`
+	Cwd     string   `json:"cwd_reached_via"` // cwdPhysical | cwdRepoParent | cwdRepo | cwdSubParent
 	PreRoot *string  `json:"preexisting_root_gitattributes"`
 	PreDir  *string  `json:"preexisting_dir_gitattributes"` // only when Dir != ""
 	PreKind string   `json:"preexisting_variant"`
@@ -1005,6 +1009,45 @@ const focusBase = 1 << 20
 // coordinates (no leading '/' at the top level, no space # backslash glob or quote in names).
 const multiBase = 2 << 20
 
+// Addressing cases (index >= addrBase, a = index - addrBase): the repository is named
+// explicitly and the process may start outside the work tree.
+//
+//	how addressed (a % 3)      : GIT_DIR + GIT_WORK_TREE in the environment | `git --work-tree=W --git-dir=G lfs ...`
+//	                             (Git exports the same variables) | core.worktree = W in the config, GIT_DIR in the environment
+//	where it starts ((a/3) % 5): work tree root | a sub-directory | an unrelated directory outside | a directory outside
+//	                             whose PATH has the work tree's path as a string prefix (W-notes, W.git, W2; suffix by (a/15) % 3)
+//	                             | the work tree's parent
+//
+// What pristine git-lfs does (probed for all 15 combinations before writing this): started
+// inside the work tree it behaves as with discovery (patterns relative to the cwd,
+// ./.gitattributes); started anywhere outside it first changes into the work tree root, so
+// the arguments are read relative to the root and the top-level .gitattributes is written.
+// The model therefore uses invocation directory "" for every outside start. Every second
+// case has a .gitattributes lying in the outside directory beforehand (it must stay as it is).
+const addrBase = 3 << 20
+
+const (
+	addrEnv     = "env-GIT_DIR+GIT_WORK_TREE"
+	addrGitOpts = "git-options-work-tree+git-dir"
+	addrCoreWT  = "core.worktree+GIT_DIR"
+
+	startRoot      = "cwd-worktree-root"
+	startSub       = "cwd-subdir"
+	startUnrelated = "cwd-outside-unrelated"
+	startLookalike = "cwd-outside-prefix-lookalike"
+	startParent    = "cwd-parent"
+)
+
+var addrKinds = []string{addrEnv, addrGitOpts, addrCoreWT}
+var startKinds = []string{startRoot, startSub, startUnrelated, startLookalike, startParent}
+var lookSuffixes = []string{"-notes", ".git", "2"}
+
+// ordinary case kinds used for the addressing cases (7 entries: coprime to 15)
+var addrCaseKinds = []string{"pattern", "filename-clean", "pattern-rich", "two-args", "own-line", "pattern", "related-args"}
+
+// addrTrigger: Sig.Trigger of a violation without an argument-intrinsic coordinate in an addressing case.
+func addrTrigger(start string) string { return "explicit-worktree/" + start }
+
 // trigMultiKnownFirst: an argument that is new (or needs its lockable state changed) stands
 // behind an "already supported" argument in the same command. trigMultiUntrack: untrack with
 // several arguments.
@@ -1032,9 +1075,12 @@ func seqLen(r *rand.Rand, idx int) int {
 func genCase(seed int64, idx int) Case {
 	r := rand.New(rand.NewSource(seed*1000003 + int64(idx)*7919 + 17))
 	c := Case{Index: idx}
-	multi, m := idx >= multiBase, idx-multiBase
-	focus, j := idx >= focusBase && !multi, idx-focusBase
-	if multi {
+	addr, ax := idx >= addrBase, idx-addrBase
+	multi, m := idx >= multiBase && !addr, idx-multiBase
+	focus, j := idx >= focusBase && !multi && !addr, idx-focusBase
+	if addr {
+		c.Kind = addrCaseKinds[ax%len(addrCaseKinds)]
+	} else if multi {
 		c.Kind = "multi-arg"
 	} else if focus {
 		c.Kind = focusKinds[j%len(focusKinds)]
@@ -1311,7 +1357,43 @@ func genCase(seed int64, idx int) Case {
 	// coprime to len(kindTable)), every focus case according to its index. No random draw is
 	// spent on it, so the cases that keep the physical path are exactly what they were.
 	c.Cwd = cwdPhysical
-	if multi {
+	if addr {
+		c.Addr = addrKinds[ax%len(addrKinds)]
+		c.Start = startKinds[(ax/3)%len(startKinds)]
+		switch c.Start {
+		case startSub:
+			if c.Dir == "" {
+				c.Dir = dirs[3+(ax/15)%(len(dirs)-3)]
+			}
+		case startLookalike:
+			c.Dir = ""
+			c.Look = lookSuffixes[(ax/15)%len(lookSuffixes)]
+		default:
+			c.Dir = ""
+		}
+		c.OutPre = ax%4 >= 2
+		if c.Dir == "" { // keep the recorded coordinate "pattern with a leading slash at the top level" out of these cases
+			for i, a := range c.Args {
+				if a.Mode == "pattern" && strings.HasPrefix(a.Text, "/") {
+					na := mk(a.Mode, strings.TrimPrefix(a.Text, "/"), a.Hazard)
+					na.Own = a.Own
+					c.Args[i] = na
+				}
+			}
+			if len(c.Args) == 2 && c.Args[0].Text == c.Args[1].Text {
+				c.Args = c.Args[:1]
+			}
+		}
+		if length < 2 {
+			length = 2
+		}
+		if ax%2 == 0 { // track then untrack of the first argument, the rest is drawn
+			fixed = one("track", "untrack")
+			if length < 3 {
+				length = 3
+			}
+		}
+	} else if multi {
 		c.Cwd, c.Dir = settleCwd(allCwds[m%len(allCwds)], c.Dir, m/4)
 	} else if focus {
 		c.Cwd = allCwds[(j/3)%len(allCwds)]
@@ -1464,7 +1546,9 @@ func (c Case) class() string {
 	if c.Cwd != "" && c.Cwd != cwdPhysical {
 		own += "/cwd=" + c.Cwd
 	}
-	if c.Index >= focusBase {
+	if c.Addr != "" {
+		own += "/addr=" + c.Addr + "/" + c.Start + c.Look
+	} else if c.Index >= focusBase {
 		own += "/focus=" + c.Kind
 		if c.Multi != "" {
 			own += "/" + c.Multi
